@@ -373,6 +373,12 @@ int kx_net_dispatch(char **tok, int ntok, int *handled) {
 		if (kx_kvl("reusectx", 0)) { KSI_PolicyVerificationResult *pr0 = NULL; if (KSI_VerificationContext_init(&vc, c) != KSI_OK) return -3; vc.signature = s;
 			KSI_SignatureVerifier_verify(KSI_VERIFICATION_POLICY_INTERNAL, &vc, &pr0); KSI_PolicyVerificationResult_free(pr0); pvc = &vc; }
 		if (api && !strcmp(api, "nearest")) rc = KSI_extendSignature(c, s, &e);
+		else if (kx_kv("pubrecfile")) { /* pubrecfile=<publications file slot>:<time>: extend to the publication record (with its references) found in a parsed publications file */
+			KSI_PublicationRecord *pr = NULL; KSI_Integer *t = NULL; const char *a = kx_kv("pubrecfile"); KSI_PublicationsFile *pf = *kx_pubfileslot(atoi(a));
+			rc = KSI_Integer_new(c, strtoull(strchr(a, ':') ? strchr(a, ':') + 1 : "0", NULL, 0), &t); if (rc) { kx_out(" stage=to"); goto ext_done; }
+			rc = KSI_PublicationsFile_getPublicationDataByTime(pf, t, &pr); KSI_Integer_free(t);
+			if (rc != KSI_OK || pr == NULL) { kx_out(" stage=lookup"); if (rc == KSI_OK) rc = -4; goto ext_done; }
+			rc = KSI_Signature_extendWithPolicy(s, c, pr, KSI_VERIFICATION_POLICY_INTERNAL, pvc, &e); /* pr belongs to the file */ }
 		else if (kx_kv("pub")) { KSI_PublicationData *pd = NULL; KSI_PublicationRecord *pr = NULL; rc = KSI_PublicationData_fromBase32(c, kx_kv("pub"), &pd); if (rc) { kx_out(" stage=pub"); goto ext_done; }
 			rc = KSI_PublicationRecord_new(c, &pr); if (rc) { KSI_PublicationData_free(pd); kx_out(" stage=pubrec"); goto ext_done; }
 			KSI_PublicationRecord_setPublishedData(pr, pd); rc = KSI_Signature_extendWithPolicy(s, c, pr, KSI_VERIFICATION_POLICY_INTERNAL, pvc, &e); KSI_PublicationRecord_free(pr); }
